@@ -97,26 +97,29 @@ func ParseDeviceCodeClientSecret(wwwAuthenticate string) string {
 // WWW-Authenticate header value. Returns an empty string if not found.
 func parseQuotedParam(header, param string) string {
 	key := param + `="`
-	from := 0
-	for {
-		i := strings.Index(header[from:], key)
-		if i == -1 {
+	// A parameter name is only recognised outside a quoted value, at the
+	// start of the header or right after a separator. Without the boundary
+	// check "client_id" also matches inside "device_code_client_id"; without
+	// the quote tracking a name that ends a quoted value (a URL ending in
+	// ",client_id=") fuses with that value's closing quote.
+	inQuote := false
+	for i := 0; i < len(header); i++ {
+		if header[i] == '"' {
+			inQuote = !inQuote
+			continue
+		}
+		if inQuote || !strings.HasPrefix(header[i:], key) {
+			continue
+		}
+		if i != 0 && header[i-1] != ' ' && header[i-1] != ',' {
+			continue
+		}
+		rest := header[i+len(key):]
+		end := strings.Index(rest, `"`)
+		if end == -1 {
 			return ""
 		}
-		idx := from + i
-		// A parameter name begins at the start of the header or right after a
-		// separator. Without this check "client_id" also matches inside
-		// "device_code_client_id" (and "client_secret" inside
-		// "device_code_client_secret"), and a name that merely ends a quoted
-		// value (a URL ending in "client_id=") fuses with the closing quote.
-		if idx == 0 || header[idx-1] == ' ' || header[idx-1] == ',' {
-			rest := header[idx+len(key):]
-			end := strings.Index(rest, `"`)
-			if end == -1 {
-				return ""
-			}
-			return rest[:end]
-		}
-		from = idx + 1
+		return rest[:end]
 	}
+	return ""
 }
